@@ -476,6 +476,18 @@ theorem inv_step (f : Fn) (ann : Ann) (hv : Verified f ann) (D : List Cell) (S A
       · simp [hk, hsc]
     · cases hast
     · cases hast
+  | guardTaken i off t hi he ht =>
+    obtain ⟨hwf, succs, hast, hall⟩ := hv.step c.pc a i hann hi
+    simp only [astep, he, ht] at hast
+    cases hast
+    exact inv_mk (s' := a) (own' := own) (hall (t, a) (by simp)) hdata hconc hsc haddr
+  | guardFall i off hi he =>
+    obtain ⟨hwf, succs, hast, hall⟩ := hv.step c.pc a i hann hi
+    simp only [astep, he] at hast
+    split at hast
+    · cases hast
+      exact inv_mk (s' := a) (own' := own) (hall (c.pc + 1, a) (by simp)) hdata hconc hsc haddr
+    · cases hast
   | scopeUp i hi he =>
     obtain ⟨hwf, succs, hast, hall⟩ := hv.step c.pc a i hann hi
     simp only [astep, he] at hast
